@@ -70,8 +70,8 @@ func c09Exec(c *c09Case) (out c09Out) {
 	}
 	var objs []obj
 	firstOf := map[[2]int]int{}
-	for _, prog := range c.Progs {
-		prog := prog
+	for pi, prog := range c.Progs {
+		pi, prog := pi, prog
 		ctl.Go(func() {
 			var cur interface{}
 			curObj := -1
@@ -91,7 +91,16 @@ func c09Exec(c *c09Case) (out c09Out) {
 					case 2:
 						h = scope.Timer(name)
 					case 3:
-						h = scope.Histogram(name, tally.ValueBuckets{1, 2})
+						// the identity of a histogram is its name: callers that pass other buckets
+						// share the histogram that was registered first
+						switch pi % 3 {
+						case 0:
+							h = scope.Histogram(name, tally.ValueBuckets{1, 2})
+						case 1:
+							h = scope.Histogram(name, tally.ValueBuckets{1, 2, 3})
+						default:
+							h = scope.Histogram(name, tally.ValueBuckets{0.5, 4})
+						}
 					}
 					id := fmt.Sprintf("%d/%p", o.Kind, h)
 					mu.Lock()
@@ -370,6 +379,21 @@ func init() {
 				}
 				return
 			}
+			var gs struct {
+				G      bool `json:"recording_on_registered_gauge_during_passes"`
+				Cached bool `json:"cached"`
+				Wait   bool `json:"updater_waits_for_delivery"`
+			}
+			if json.Unmarshal(ctx.Replay, &gs) == nil && gs.G {
+				ctx.Case(gs, "", "recording-on-registered-metrics-during-passes", "")
+				for k := 0; k < 200; k++ {
+					if f := c02Stress(gs.Cached, gs.Wait); f != "" {
+						ctx.Fail("one_object_per_identity_allocate_once_all_delivered", "recording on an already registered gauge while report passes run: "+f, gs, nil)
+						return
+					}
+				}
+				return
+			}
 			var c c09Case
 			if err := json.Unmarshal(ctx.Replay, &c); err != nil {
 				fatal(err)
@@ -464,6 +488,19 @@ func init() {
 		}
 		ctx.Res.Evaluations += rounds
 		ctx.Res.Histogram["uncontrolled-first-use-rounds"] += rounds
+		// "... while other goroutines record on already-registered metrics and a report pass runs":
+		// everything recorded through the handles is delivered - counters and histogram buckets by the
+		// streams of C01 (sums), gauges here: an updater against three goroutines running passes; once the
+		// updates stop and every reporter has completed two more passes the last update must have been
+		// delivered (stream of C02)
+		for k, nk := 0, ctx.N(16, 400); k < nk; k++ {
+			cs := map[string]interface{}{"recording_on_registered_gauge_during_passes": true, "cached": k%2 == 1, "updater_waits_for_delivery": k%4 < 2}
+			ctx.Case(cs, "", "recording-on-registered-metrics-during-passes", "")
+			if f := c02Stress(k%2 == 1, k%4 < 2); f != "" {
+				ctx.Fail("one_object_per_identity_allocate_once_all_delivered", "recording on an already registered gauge while report passes run: "+f, cs, nil)
+				break
+			}
+		}
 		// child scopes asked for while others close and re-obtain them (the registry cycles of C07 under the
 		// schedule controller): every live identity keeps one object and its records
 		regCrossStream(ctx, ctx.N(80, 2000), "one_scope_per_identity")
@@ -606,7 +643,14 @@ func c09Storm(rounds, G int) string {
 					ids[g] = fmt.Sprintf("%p", t)
 					t.Record(time.Nanosecond)
 				case 3:
-					h := scope.Histogram(name, tally.ValueBuckets{1, 2})
+					var b tally.Buckets = tally.ValueBuckets{1, 2}
+					switch g % 3 { // the identity of a histogram is its name, whatever buckets a caller passes
+					case 1:
+						b = tally.ValueBuckets{1, 2, 3}
+					case 2:
+						b = tally.ValueBuckets{0.5, 4}
+					}
+					h := scope.Histogram(name, b)
 					ids[g] = fmt.Sprintf("%p", h)
 					h.RecordValue(1.5)
 				}
